@@ -10,6 +10,7 @@ S["C01"] = dict(title="Accepted QoS>=1 publishes are retransmitted until acknowl
     H("verifH_C01_ack", "L01.c/L03.a PUBACK/PUBREC/PUBCOMP with arbitrary identifier", T({"W":2,"wfaults":1,"storefaults":1}), T({"W":3,"wfaults":2,"storefaults":1}, time_sec=1500), ("puback-applied","puback-delete-failed","puback-rejected","pubcomp-applied","pubcomp-delete-failed","pubcomp-rejected","pubrec-applied","pubrec-rejected","pubrec-save-failed","pubrec-write-failed")),
     H("verifH_C01_resend", "L01.b resend under write and Load faults", T({"W":2,"wfaults":2,"storefaults":1}), T({"W":3,"wfaults":2,"storefaults":1}, time_sec=1500), ("complete","failed")),
     _compose, _connect_light,
+    H("verifH_C02_adopt", "across restarts: AdoptSession on an arbitrary PINV store (ring position free, windows straddling the identifier wrap) resends exactly the unacknowledged set and a new publish does not overwrite a pending record", T({"shapes":6}), T({"shapes":10}, time_sec=2400), ("adopted","adopted-twice","drained","adopted-twice-pubrec")),
   ],
   assumptions=["pre-states are arbitrary states satisfying INV-out1/out2/seq of DESIGN 4.1 (counters < 2^62, ring position free); the induction over histories is a paper step",
     "Persistence operations fail without effect (documented contract); Load returns a private copy",
@@ -54,7 +55,8 @@ _stream1 = H("verifH_C06_stream", "same, one packet, two cuts (expiry inside the
 _inasm = ["bufio.Reader executed from SSA with readBufSize scaled to B=16 (the code compares sizes only with readBufSize); topic + 4 <= B",
     "read deadline expiries happen only while a deadline is armed and after progress since arming (the property's premise); the stream ends with EOF",
     "Persistence without faults in this harness; net.Conn.Write without faults"]
-S["C06"] = dict(title="Inbound messages are returned byte-exact under any fragmentation and size", technique=TECH+"; real bufio.Reader, read cuts case-split, contents symbolic", harnesses=[_stream1, _stream],
+S["C06"] = dict(title="Inbound messages are returned byte-exact under any fragmentation and size", technique=TECH+"; real bufio.Reader, read cuts case-split, contents symbolic", harnesses=[_stream1, _stream,
+    H("verifH_C06_discard", "skipping an unread big payload: discard(n) for every n (solver variable) consumes exactly n bytes under any fragmentation and up to 3 deadline expiries with progress in between; reads only under an armed deadline", T({"cuts":2,"expiries":3}), T({"cuts":4,"expiries":4}, time_sec=1200), ("two-expiries","end"))],
   assumptions=_inasm,
   bounds={"quick":"B=16; <= 2 packets (PUBLISH q0/q1/q2, PUBREL, PINGRESP), topic 1..2 bytes, payload sizes {0,1,B-h-1..B-h+2,2B+1-h}, <= 1 cut (2 packets) / 2 cuts (1 packet), <= 1 expiry","thorough":"<= 2 cuts with 2 packets, 3 cuts / 2 expiries with 1 packet"},
   outside=["the literal 128 KiB buffer","topics near 65535 bytes","more than 2 packets per stream (alignment after each packet is the inductive step)","CONNACK coalesced with following packets (C18)"])
